@@ -1058,7 +1058,9 @@ Fixpoint eval (fuel : nat) (cenv : env) (yt : option nat) (e : env) (s : store) 
       | EWhile c b0 | EUntil c b0 =>
           let want := match x with EWhile _ _ => true | _ => false end in
           (* iteration count is bounded by the fuel: each round consumes one unit *)
-          (fix loop (n : nat) (e : env) (s : store) : res * env * store :=
+          (* the value of a loop is the value of its last iteration's body (null after
+             `continue`), null when it never ran -- as koto's own tests define it *)
+          (fix loop (n : nat) (last : value) (e : env) (s : store) : res * env * store :=
              match n with
              | O => (RFuel, e, s)
              | S n' =>
@@ -1066,14 +1068,15 @@ Fixpoint eval (fuel : nat) (cenv : env) (yt : option nat) (e : env) (s : store) 
                  | (RVal vc, e1, s1) =>
                      if Bool.eqb (truthy vc) want then
                        match eval n' cenv yt e1 s1 b0 with
-                       | (RVal _, e2, s2) | (RCont, e2, s2) => loop n' e2 s2
+                       | (RVal w, e2, s2) => loop n' w e2 s2
+                       | (RCont, e2, s2) => loop n' VNull e2 s2
                        | (RBreak v, e2, s2) => (RVal v, e2, s2)
                        | other => other
                        end
-                     else (RVal VNull, e1, s1)
+                     else (RVal last, e1, s1)
                  | other => other
                  end
-             end) f e s
+             end) f VNull e s
       | ELoop b0 =>
           (fix loop (n : nat) (e : env) (s : store) : res * env * store :=
              match n with
